@@ -13,6 +13,7 @@ import YaclibModel.Proofs.StrandRun
 import YaclibModel.Proofs.StrandTowerBase
 import YaclibModel.Proofs.StrandTowerInline
 import YaclibModel.Proofs.StrandTowerManual
+import YaclibModel.Proofs.StrandTowerNoDrop
 import YaclibModel.Proofs.PoolExecContract
 import YaclibModel.Extracted.Kernels
 import YaclibModel.Model.Skeletons
@@ -416,6 +417,28 @@ example : ∃ (s : (tower (inlineExec false) 1).σ) (p : Prot), (tower (inlineEx
     (lx := XEv.drop 0) (x' := _) (by exact ⟨rfl, rfl, rfl⟩) rfl) rfl
   have h5 := Exec.Run.out h4 (PStep.up (viaNext (.aDrop 0 j00) rfl) rfl) rfl rfl
   exact ⟨_, _, h5, rfl, rfl⟩
+
+/-- **a tower over an executor that never Drops never Drops**: a strand Drops a job only if the executor below refused
+    one of its activations (`dropped_only_if_executor_dropped`), so with a base that — in the states it reaches with
+    protocol-honouring clients — never Drops, no level of the tower ever Drops, in any state the tower reaches.
+    (`NeverDropsRun` has to be read over reachable states: the single-strand relation over *all* states has `aDrop`
+    steps from unreachable states.)  Used by C14 for coroutine mutexes resumed through a tower of strands. -/
+theorem tower_never_drops {base : Exec} (hb : NeverDropsRun base) : ∀ n, NeverDropsRun (tower base n) :=
+  Yaclib.Strand.tower_never_drops hb
+
+/-- … e.g. over the alive Inline executor and over the ManualExecutor; and with clients of any workload on top nothing
+    is ever Dropped or refused at the top level -/
+theorem tower_over_inline_manual_never_drops (n : Nat) :
+    NeverDropsRun (tower (inlineExec true) n) ∧ NeverDropsRun (tower (manualExec false) n) :=
+  ⟨tower_never_drops (.of_all fun _ l _ a hs he => by
+      cases Option.some.inj he; exact inline_alive_never_drops hs) n,
+   tower_never_drops (.of_all fun _ l _ a hs he => by
+      cases l <;> simp [manualExec, manualEv] at he
+      subst he; exact manual_never_drops hs) n⟩
+
+theorem tower_top_never_drops {w : Workload} {base : Exec} (hb : NeverDropsRun base) {n : Nat}
+    {s : (towerTop w base n).σ} (hr : (towerTop w base n).Reach s) : s.1.dropped = [] ∧ s.1.execDrops = 0 :=
+  top_never_drops hb hr
 
 /-- what C07 says about one strand, as a predicate on its state -/
 structure LevelProps (v : State) : Prop where
